@@ -1406,6 +1406,59 @@ func sharedKeyProbes(c *Ctx) {
 	}
 }
 
+// sharedBackingProbe (C11, F41): the trailer values a handler sets are the handler's slices. Two
+// keys whose values are parts of one array (the halves of a strings.Split, say), and an error
+// whose metadata has one of those keys: the library must merge into a copy - appending to the
+// handler's own slice overwrites the neighbouring key's value, and the client sees a trailer
+// value the handler never set under that key.
+func sharedBackingProbe(c *Ctx) {
+	for _, proto := range []string{"connect", "grpc", "grpcweb"} {
+		for _, nsend := range []int{0, 1} {
+			desc := fmt.Sprintf("%s server stream, %d message(s), trailers X-A and X-B set to the two halves of one slice, then an error whose metadata has X-A", proto, nsend)
+			c.Count("probe-shared-backing")
+			got := safely(func() string {
+				h := connect.NewServerStreamHandler("/s/m", func(ctx context.Context, r *connect.Request[[]byte], s *connect.ServerStream[[]byte]) error {
+					vals := strings.Split("a,b", ",")
+					s.ResponseTrailer()["X-A"] = vals[:1]
+					s.ResponseTrailer()["X-B"] = vals[1:]
+					for i := 0; i < nsend; i++ {
+						_ = s.Send(&[]byte{1})
+					}
+					e := connect.NewError(connect.CodeAborted, errors.New("stop"))
+					e.Meta()["X-A"] = []string{"m"}
+					return e
+				}, connect.WithCodec(rawCodec{"raw"}))
+				rec := serveReal(proto, "server", false, h)
+				hc := &staticClient{status: rec.status, header: rec.header, trailer: rec.trailer, body: rec.body}
+				cl := connect.NewClient[[]byte, []byte](hc, "http://h/s/m", append(protoOpts(proto), connect.WithCodec(rawCodec{"raw"}))...)
+				st, err := cl.CallServerStream(context.Background(), connect.NewRequest(&[]byte{1}))
+				if err != nil {
+					return "call: " + err.Error()
+				}
+				defer st.Close()
+				for st.Receive() {
+				}
+				var ce *connect.Error
+				if !errors.As(st.Err(), &ce) || ce.Code() != connect.CodeAborted {
+					return fmt.Sprintf("not the handler's error: %v", st.Err())
+				}
+				if g := strings.Join(ce.Meta().Values("X-B"), ","); g != "b" {
+					return fmt.Sprintf("X-B arrived as %q, the handler set \"b\"", g)
+				}
+				ga := append([]string(nil), ce.Meta().Values("X-A")...)
+				sort.Strings(ga)
+				if g := strings.Join(ga, ","); g != "a,m" {
+					return fmt.Sprintf("X-A arrived as %q, want a and m", g)
+				}
+				return "ok"
+			})
+			if got != "ok" {
+				c.Fail("rt-trailer-shared-backing", desc, got, "a trailer value the handler set arrived changed")
+			}
+		}
+	}
+}
+
 // requestWireProbes (C05, request direction, oracle only): what a client writes is decodable by
 // an independent reader that goes by the labels alone: a body or envelope is compressed exactly
 // if it is labelled so, a label names an algorithm only if something is compressed with it
@@ -2618,6 +2671,7 @@ func extraProbes(c *Ctx) {
 	contentLengthProbes(c)
 	unserializableErrorProbe(c)
 	brokenDetailProbe(c)
+	sharedBackingProbe(c)
 	codeTextProbes(c)
 	terminatorLostProbes(c)
 	truncatedErrorBodyProbes(c)
@@ -3003,6 +3057,25 @@ func mutatedResponses(c *Ctx) {
 					{{kind: "f", data: []byte{1}}, {kind: "f", flags: 1, data: []byte{2, 7}}},
 				} {
 					cdecOp(c, cdecLine(proto, kind, &sresp{status: 200, header: hdr{"Content-Type": {ct}, "Grpc-Status": {"0"}}, body: b}))
+				}
+				// a response the client refuses at once (HTTP status, an encoding it does not know)
+				// whose HTTP trailers are there already (an in-memory transport; net/http's fill
+				// them in when the body has been read): an explicit error in them is the server's
+				// word and wins over the refusal; anything else does not
+				for _, st := range []string{"5", "0", "abc", ""} {
+					tr := hdr{"Grpc-Status": {st}, "Grpc-Message": {"nope"}, "X-Tr": {"1"}}
+					if st == "" {
+						tr = hdr{"X-Tr": {"1"}}
+					}
+					for _, status := range []int{503, 404, 204} {
+						cdecOp(c, cdecLine(proto, kind, &sresp{status: status, header: hdr{"Content-Type": {ct}, "X-H": {"1"}}, trailer: tr}))
+						cdecOp(c, cdecLine(proto, kind, &sresp{status: status, header: hdr{"Content-Type": {ct}}, body: []bodyItem{{kind: "f", data: []byte{1}}}, trailer: tr}))
+						if proto == "grpcweb" {
+							cdecOp(c, cdecLine(proto, kind, &sresp{status: status, header: hdr{"Content-Type": {ct}}, body: []bodyItem{{kind: "f", data: []byte{1}}, {kind: "web", header: tr}}}))
+						}
+					}
+					cdecOp(c, cdecLine(proto, kind, &sresp{status: 200, header: hdr{"Content-Type": {ct}, "Grpc-Encoding": {"zstd"}, "X-H": {"1"}}, trailer: tr}))
+					cdecOp(c, cdecLine(proto, kind, &sresp{status: 200, header: hdr{"Content-Type": {ct}, "Grpc-Encoding": {"zstd"}}, body: []bodyItem{{kind: "f", data: []byte{1}}}, trailer: tr}))
 				}
 				// missing terminator
 				cdecOp(c, cdecLine(proto, kind, &sresp{status: 200, header: hdr{"Content-Type": {ct}}, body: []bodyItem{{kind: "f", data: []byte{1}}}}))
